@@ -230,7 +230,7 @@ Section C16_1d_real_pf.
   Qed.
 End C16_1d_real_pf.
 
-(* finding F13: with the code as it is (dedup = false) a batch that contains a seed
+(* finding F21: with the code as it is (dedup = false) a batch that contains a seed
    already known at x breaks counts = number of samples (the sample is overwritten
    and counted again): after tell(0,.5)=1, tell(1,.5)=2, tell_many_at_point(.5,{1:10, 2:3})
    the count is 4 with 3 samples held and the "mean" is 4 = (1+2+10+3)/4; witness in
